@@ -11,12 +11,13 @@ import (
 )
 
 // Internal value representation (one canonical Go type per column class):
-//   nil                 NULL
-//   int64               integer types, YEAR, BIT
-//   uint64              BIGINT UNSIGNED values above MaxInt64 only
-//   float64             FLOAT, DOUBLE
-//   string              DECIMAL (canonical text), character types, JSON, ENUM, SET, TIME, binary types (raw bytes in a string)
-//   time.Time (UTC)     DATE, DATETIME, TIMESTAMP
+//
+//	nil                 NULL
+//	int64               integer types, YEAR, BIT
+//	uint64              BIGINT UNSIGNED values above MaxInt64 only
+//	float64             FLOAT, DOUBLE
+//	string              DECIMAL (canonical text), character types, JSON, ENUM, SET, TIME, binary types (raw bytes in a string)
+//	time.Time (UTC)     DATE, DATETIME, TIMESTAMP
 type Value = interface{}
 
 type class int
